@@ -148,10 +148,11 @@ def extra_streams():
     out = []
     for te in [b"chunked", b"Chunked", b"chunked, ", b", chunked", b",chunked", b"chunked ,", b"chunked,\t,", b" ,chunked",
                b"gzip", b"gzip, chunked", b"chunked, gzip", b"chunked, chunked", b"identity", b"chunked;q=1", b"\x0bchunked",
-               b"chunkedx", b"xchunked", b"chunke", b""]:
+               b"chunkedx", b"xchunked", b"chunke", b"", b"\x85chunked", b"chunked\x85", b"\xa0chunked", b"chunked\xa0",
+               b"chunked\x85, chunked", b"CHUNKED", b"chun\xebed", b"chunked ; x"]:
         for extra in [b"", b"Content-Length: 3\r\n"]:
             out.append(H11 + b"Transfer-Encoding: " + te + b"\r\n" + extra + b"\r\n3\r\nabc\r\n0\r\n\r\n" + NEXT)
-    for cl in [b"3", b"03", b"+3", b"3 ", b" 3", b"3,3", b"3, 3", b"0x3", b"3a", b"", b"-3", b"3\x0b", b"1_0", b"\xb3"]:
+    for cl in [b"3", b"03", b"+3", b"3 ", b" 3", b"3,3", b"3, 3", b"0x3", b"3a", b"", b"-3", b"3\x0b", b"1_0", b"\xb3", b"\xa03", b"3\x85", b"\xb2\xb3", b"3" * 4301]:
         out.append(H11 + b"Content-Length: " + cl + b"\r\n\r\nabc" + NEXT)
         out.append(H11 + b"Content-Length: " + cl + b"\r\nContent-Length: 3\r\n\r\nabc" + NEXT)
     for body in [b"3\r\nabc\r\n0\r\n\r\n", b"3\nabc\r\n0\r\n\r\n", b"3\r\nabc\n0\r\n\r\n", b"3\r\nabcX\r\n0\r\n\r\n", b"3\r\nabc\r\n0\n\r\n",
